@@ -10,7 +10,7 @@ SCOPE_WORDS = ["function", "class", "module", "package", "session"]
 
 
 def fixture_src(rnd, name, params=(), scope=None, autouse=False, alias=None, body=None, doc=None,
-                ret=None, gen=False, indent="", asyncdef=False, style=None):
+                ret=None, gen=False, indent="", asyncdef=False, style=None, multiline=False):
     style = style or rnd.choice(["pytest.fixture", "pytest.fixture()", "fixture", "pytest_asyncio.fixture"]
                                 if rnd.random() < 0.3 else ["pytest.fixture"])
     kws = []
@@ -24,8 +24,14 @@ def fixture_src(rnd, name, params=(), scope=None, autouse=False, alias=None, bod
     if kws:
         dec = "@" + style.replace("()", "") + "(" + ", ".join(kws) + ")"
     sig = ", ".join(params)
-    head = "%sdef %s(%s)%s:" % ("async " if asyncdef else "", name, sig, (" -> " + ret) if ret else "")
-    lines = [indent + dec, indent + head]
+    rets = (" -> " + ret) if ret else ""
+    if multiline and params:
+        lines = [indent + dec, indent + "%sdef %s(" % ("async " if asyncdef else "", name)]
+        lines += [indent + "    " + p + "," for p in params]
+        lines.append(indent + ")%s:" % rets)
+    else:
+        head = "%sdef %s(%s)%s:" % ("async " if asyncdef else "", name, sig, rets)
+        lines = [indent + dec, indent + head]
     if doc:
         lines.append(indent + '    """' + doc + '"""')
     if gen:
@@ -205,3 +211,65 @@ def build_steps(ws):
     steps = [{"op": "mark_plugin", "path": p} for p in ws["plugins"]]
     steps += [{"op": "analyze", "path": p, "text": ws["files"][p]} for p in ws["order"]]
     return steps
+
+
+def gen_chain_workspace(rnd: random.Random, root="/vc"):
+    """override chains of one name over {test module, ancestor conftests, plugin, third-party}"""
+    tags = []
+    files = {}
+    plugins = []
+    name = rnd.choice(NAMES)
+    depth = rnd.randint(1, 3)
+    dirs = [root]
+    for k in range(depth):
+        dirs.append(dirs[-1] + "/" + "lvl%d" % k)
+    places = ["module"] + ["conftest%d" % i for i in range(len(dirs))] + ["plugin", "third"]
+    k = rnd.randint(1, min(4, len(places)))
+    chosen = sorted(rnd.sample(places, k), key=places.index)
+    tags.append("chain%d" % k)
+    multiline_p = rnd.random() < 0.25
+
+    def link(requests_parent, doc):
+        ml = multiline_p and rnd.random() < 0.6
+        if ml:
+            tags.append("multiline")
+        extra = ["tmp_other"] if rnd.random() < 0.2 else []
+        return fixture_src(rnd, name, params=([name] if requests_parent else []) + extra, doc=doc,
+                           multiline=ml, scope=rnd.choice([None, None, "session"]),
+                           ret=rnd.choice([None, "int"]))
+
+    for pl in chosen:
+        tags.append("link:" + ("conftest" if pl.startswith("conftest") else pl))
+        req = rnd.random() < 0.85
+        if pl == "module":
+            continue
+        if pl.startswith("conftest"):
+            i = int(pl[8:])
+            # conftest index 0 = nearest (deepest dir)
+            d = dirs[len(dirs) - 1 - i]
+            files[d + "/conftest.py"] = "import pytest\n\n" + link(req, pl) + "\n"
+        elif pl == "plugin":
+            p = root + "/plugsrc/chain_plugin.py"
+            files[p] = "import pytest\n\n" + link(req, pl) + "\n"
+            plugins.append(p)
+        else:
+            p = root + "/.venv/lib/python3/site-packages/pytest_chain/plugin.py"
+            files[p] = "import pytest\n\n" + link(req and rnd.random() < 0.3, pl) + "\n"
+    # using modules at every depth; the deepest may hold the innermost link
+    for di, d in enumerate(dirs):
+        src = "import pytest\n\n"
+        if d == dirs[-1] and "module" in chosen:
+            src += link(rnd.random() < 0.85, "module") + "\n"
+            if rnd.random() < 0.15:
+                tags.append("module:redefinition")
+                src += link(True, "module again") + "\n"
+        src += test_src(rnd, "test_at_%d" % di, [name]) + "\n"
+        if rnd.random() < 0.4:
+            src += test_src(rnd, "test_uf_%d" % di, [], usefixtures=[name]) + "\n"
+        files[d + "/test_chain%d.py" % di] = src
+    if rnd.random() < 0.4:
+        files[dirs[0] + "/other/conftest.py"] = "import pytest\n\n" + fixture_src(rnd, name, params=[name], doc="unrelated branch") + "\n"
+        tags.append("invisible:sibling")
+    order = sorted(files)
+    rnd.shuffle(order)
+    return {"files": files, "plugins": plugins, "order": order, "tags": tags, "names": [name], "root": root}
